@@ -13,8 +13,10 @@ import (
 	"encoding/json"
 	"fmt"
 	"io"
+	"os"
 	"sort"
 	"strings"
+	"time"
 
 	"github.com/dolthub/dolt/go/store/prolly"
 	"github.com/dolthub/dolt/go/store/val"
@@ -454,7 +456,25 @@ func reverse(kvs []px.KV) []px.KV {
 	return out
 }
 
+// runCase runs one case under a watchdog: a case normally takes milliseconds; one that does not
+// come back (a livelock inside the implementation, e.g. a cursor that never reaches its stop)
+// is reported as a violation with the case as replay instead of a harness timeout.
 func runCase(e *hx.Env, m *hx.Model, k kase) {
+	done := make(chan struct{})
+	go func() {
+		defer close(done)
+		runCase0(e, m, k)
+	}()
+	select {
+	case <-done:
+	case <-time.After(180 * time.Second):
+		e.Rep.Violate("prollymap/hang", "the case did not terminate within 180 s (the implementation loops)", k)
+		e.Finish()
+		os.Exit(0)
+	}
+}
+
+func runCase0(e *hx.Env, m *hx.Model, k kase) {
 	ctx := context.Background()
 	restore := px.Install(k.P)
 	defer restore()
